@@ -24,7 +24,6 @@ from . import buffers as B
 from .buffers import RB
 
 PROPERTY = "C08"
-READY = False
 LEVEL = "proof"
 
 
